@@ -274,6 +274,11 @@ class FortranAST:
                         parent_scope.children.remove(obj)
                     added_entities = []
                     for child in list(include_ast.inc_scope.children):
+                        # Files including each other: never make a scope its own ancestor
+                        if parent_scope is not None and child.links_back(
+                            parent_scope, "parent"
+                        ):
+                            continue
                         added_entities.append(child)
                         if parent_scope is not None:
                             parent_scope.add_child(child)
